@@ -731,11 +731,22 @@ pub fn run_c08(thorough: bool, seed: u64, shards: usize) -> (Report, String) {
         for k in 0..per {
             let case = gen_byte_case(seed, "C08", shard as u64 * per + k, true);
             check_c08(&case, &mut rep);
+            // an error of the underlying reader that is not a syntax error: io::Error injected into
+            // well-formed histories (fault.rs)
+            if k % 400 == 11 {
+                let idx = shard as u64 * per + k;
+                let h = crate::hist::random_case(seed, "C08-faults", idx, crate::hist::Mix::Schema);
+                let texts = h.texts();
+                if texts.iter().map(|t| t.len()).sum::<usize>() <= 6000 {
+                    let mut fr = Rng::derive(seed, "C08-fault-offsets", idx);
+                    crate::fault::sweep(&texts, &mut fr, 16, &mut rep, &h.origin);
+                }
+            }
         }
         rep
     });
     let rule = format!(
-        "{} byte strings derived from generated valid documents: error classes produced on purpose (mismatched / unclosed / stray end tags, duplicated and malformed attributes, invalid UTF-8 placed in names, keys, values, text, CDATA, comments, PIs, inputs without any element, valid documents wrapped in prolog/epilog combinations, truncations), tag-level and byte-level mutations, splices, raw random bytes, nesting ladders; each through into_struct and (one third) extend_struct onto a valid tree, default reader configuration, reader kinds str/slice/BufReader(1..4096)/chunked. Expected verdict from an independent flat pass over a second reader of the same kind. Distinct: hash of the input bytes.",
+        "{} byte strings derived from generated valid documents: error classes produced on purpose (mismatched / unclosed / stray end tags, duplicated and malformed attributes, invalid UTF-8 placed in names, keys, values, text, CDATA, comments, PIs, inputs without any element, valid documents wrapped in prolog/epilog combinations, truncations), tag-level and byte-level mutations, splices, raw random bytes, nesting ladders; each through into_struct and (one third) extend_struct onto a valid tree, default reader configuration, reader kinds str/slice/BufReader(1..4096)/chunked. Expected verdict from an independent flat pass over a second reader of the same kind. Plus reader faults: one in 400 cases supplies a well-formed random history through a BufRead that reports an io::Error (WouldBlock, TimedOut, Other, UnexpectedEof, BrokenPipe, PermissionDenied, InvalidData once or for good; Interrupted once) at 16 byte offsets of one step; the call must return Err or an Ok tree rendering byte-identically to the fault-free run, and a fault that never clears before the root element ends must be Err. Distinct: hash of the input bytes.",
         n
     );
     (rep, rule)
@@ -817,6 +828,32 @@ fn c07_calls(case: &ByteCase, rep: &mut Report) {
                     render_all(&tree, rep, "extend_struct");
                 }
                 Ok(Err(_)) => rep.count("extend_err"),
+            }
+        }
+    }
+    // the same bytes through a reader that reports an io::Error at a seeded offset (once or for good):
+    // "any buffered reader" includes one that fails — the call must still return, Ok or Err
+    let mut fr = Rng::new(gen::fnv64(&bytes) ^ 0x5EED_FA17);
+    if fr.chance(1, 8) && case.stack_kib == 0 {
+        for _ in 0..3 {
+            let at = fr.below(bytes.len() + 1);
+            let kind = crate::fault::KINDS[fr.below(crate::fault::KINDS.len())];
+            let persistent = kind != std::io::ErrorKind::Interrupted && fr.chance(1, 2);
+            let chunk = *fr.pick(&[1usize, 2, 3, 7, 64, 4096]);
+            let res = guarded(|| {
+                let mut rd = quick_xml::reader::Reader::from_reader(crate::fault::FaultyReader::new(&bytes, chunk, at, kind, persistent));
+                cfg.apply(&mut rd);
+                xml_schema_generator::into_struct(&mut rd)
+            });
+            rep.count("parses through a failing reader");
+            match res {
+                Err(p) => rep.violation(
+                    "panic:parse-with-reader-fault",
+                    format!("into_struct panicked with {:?} (persistent={}) injected at byte {} chunk {}: {}", kind, persistent, at, chunk, p),
+                    case.to_json(),
+                ),
+                Ok(Ok(tree)) => render_all(&tree, rep, "into_struct through a failing reader"),
+                Ok(Err(_)) => {}
             }
         }
     }
